@@ -14,6 +14,9 @@ CACHE = os.path.join(VERIF, ".cache")
 MAP = [
     ("V:pairs:intersects:line.intersects", "line_intersects"),
     ("V:pairs:intersects:atom.", "atom_intersects"),
+    ("V:pairs:area", "shape_areas"),
+    ("V:pairs:overlap_area:", "shape_areas"),
+    ("V:pairs:circle_overlap:", "shape_areas"),
     ("V:pairs:energy:lj.energy", "lj_energy"),
     ("V:geom:periodic:periodic.", "transform_periodic"),
     ("V:geom:to_cartesian:", "cell_geometry"),
